@@ -424,7 +424,7 @@ func runScript(sc *script, seed int64, out chan<- *obsRec) (matched bool, infra 
 			matched = false
 			// a difference in what Status/StatusAll report does not change the tracker's
 			// state: go on; anything else ends the scripted part
-			if o.Why != "status" && o.Why != "statusall" {
+			if o.Why != "status" && o.Why != "statusall" && o.Why != "result" {
 				break
 			}
 		}
